@@ -84,10 +84,19 @@ def code_id(code):
 FALSY = 1000     # script value that stands for the integer 0: a result that is not None but falsy
 
 
+LISTV = 77          # script value code / value id of "the list [1, 2]": a handler result that is itself a list
+
+
+class ScriptList(list):
+    """the list a scripted handler returns for value code LISTV"""
+
+
 def vid(x):
     """value id of a handler result for trace lines"""
     if x is None:
         return 0
+    if isinstance(x, ScriptList):
+        return LISTV if list(x) == [1, 2] else -3
     if isinstance(x, tuple) and len(x) == 3:
         return -1
     if isinstance(x, int) and not isinstance(x, bool):
@@ -466,7 +475,11 @@ class Universe:
                 event._u_refire = True
                 comp.fire(event, self._chan_obj(op[1]))
             elif o == 'ret':
-                ret = 0 if op[1] == FALSY else op[1]
+                ret = 0 if op[1] == FALSY else ScriptList([1, 2]) if op[1] == LISTV else op[1]
+            elif o == 'retv':
+                # the handler's result is the Value of the event it fired last (a nested value)
+                ev = self.last_fired.get((e, hid))
+                ret = self.values.get(self.eid.get(id(ev), 0)) if ev is not None else None
             elif o == 'raise':
                 self.log.append(line('op', e=e, h=hid, n='raise'))
                 raise ScriptError('scripted failure h%d e%d' % (hid, e))
@@ -549,7 +562,7 @@ class Universe:
                 self.log.append(line('gend', e=e, h=hid))
                 return
             if susp[0] == 'yield':
-                yv = 0 if susp[1] == FALSY else susp[1]
+                yv = 0 if susp[1] == FALSY else ScriptList([1, 2]) if susp[1] == LISTV else susp[1]
                 self.log.append(line('yld', e=e, h=hid, v=vid(yv)))
                 yield yv
             else:
@@ -593,7 +606,7 @@ class Universe:
                     continue
                 v = getattr(val, 'value', val)
                 errs = bool(getattr(val, 'errors', False))
-                if isinstance(v, list):
+                if isinstance(v, list) and not (isinstance(v, ScriptList) and list(v) == [1, 2]):
                     rv = sum(vid(x) for x in v) * 1000 + len(v)
                 else:
                     rv = vid(v)
@@ -743,7 +756,11 @@ class Universe:
         for e, val in sorted(self.values.items()):
             ev = self.events[e - 1]
             raw = val.getValue(recursive=False) if hasattr(val, 'getValue') else None
-            items = raw if isinstance(raw, list) else ([] if (raw is None and not val.result) else [raw])
+            if isinstance(raw, ScriptList) and list(raw) == [1, 2]:
+                raw = (raw,)        # one result, which happens to be a list (a tuple here so that it is not taken for several)
+                items = [raw[0]]
+            else:
+                items = raw if isinstance(raw, list) else ([] if (raw is None and not val.result) else [raw])
 
             for it in items:
                 self.log.append(line('vitem', e=e, v=vid(it)))
